@@ -227,6 +227,22 @@ def chk_funnel(rng):
     r = type('TextDefault', (univ.OctetString,), {'defaultValue': 'ab'})()
     if not isinstance(r._value, bytes) or bytes(r) != b'ab':
         fails.append(rec('funnel', 'OCTET STRING subclass with defaultValue = "ab" holds %r' % (r._value,)))
+    # REAL with a value range: values inside are admitted, values outside refused (library error)
+    for lo, hi in ((0, 10), (-1.5, 2.5)):
+        for x in (lo, hi, (lo + hi) / 2.0, lo - 1, hi + 1, 0.0, 1.25):
+            n += 1
+            try:
+                univ.Real(x, subtypeSpec=C.ValueRangeConstraint(lo, hi))
+                got = True
+            except perror.PyAsn1Error:
+                got = False
+            except Exception as e:
+                fails.append(rec('funnel', 'REAL (%s..%s): constructing %r raised %s: %s' % (lo, hi, x, type(e).__name__, e),
+                                 real_constraint=True))
+                continue
+            if got != (lo <= x <= hi):
+                fails.append(rec('funnel', 'REAL (%s..%s) %s %r' % (lo, hi, 'admits' if got else 'refuses', x),
+                                 real_constraint=True))
     # BIT STRING: every operator against a python string of '0'/'1' -- the result is the model's result when the model's
     # result satisfies SIZE, and a refusal (library error) otherwise; leading zero bits count
     for lo, hi in ((0, 8), (4, 4), (1, 12)):
